@@ -26,9 +26,16 @@ DOC_FIELDS = {"arrival": "connectionTime", "departure": "disconnectTime", "reque
 
 def rule_units(ck, rid="C15.R1"):
     repo = ck.repo
-    for q in ("_convert_to_ev", "_datetime_to_timestamp", "StochasticEvents._convert_ev_matrix", "batt_cap_fn",
-              "batt_cap_fn._get_init_cap", "batt_cap_fn._get_init_cap.delta_soc_from_init_soc"):
+    for q in ("_convert_to_ev", "_datetime_to_timestamp", "StochasticEvents._convert_ev_matrix"):
         check_units(ck, rid, repo.fn(q), UNITS[q])
+    # the two-stage capacity fit: followed from batt_cap_fn into the initial-charge helper, the SoC-gain closure and the bisection,
+    # wherever they are defined (nested closures today); parameter units are inferred from the arguments at each call
+    e = check_units(ck, rid, repo.fn("batt_cap_fn"), UNITS["batt_cap_fn+"], follow=True)
+    ck.floor(rid, len(set(e.descended)), 3, "helpers of the capacity fit reached from batt_cap_fn (initial charge, SoC gain, bisection)")
+    ck.floor(rid, e.ops, 40, "unit-checked operations in the capacity fit")
+    for q in ("batt_cap_fn._get_init_cap", "batt_cap_fn._get_init_cap.delta_soc_from_init_soc"):
+        if repo.fn(q, optional=True) is not None:
+            check_units(ck, rid, repo.fn(q), UNITS[q])
     # floor on the default path of the datetime conversion
     f = repo.fn("_datetime_to_timestamp")
     fl = flow_of(f)
